@@ -165,7 +165,16 @@ func iccSeeds() []hseed {
 	ml, _ := gen.Mluc([]gen.MlucRec{{"de", "DE", "Beschreibung"}, {"en", "US", "Description"}}, "table", 12)
 	v4 := gen.BuildICC(nil, []gen.ICCTag{{"cprt", 1}, {"desc", 0}},
 		[]gen.ICCBlock{{Data: ml}, {Data: gen.Payload(40, 3, true), Gap: 2}}, []int{1, 0}, nil)
-	return []hseed{{"icc-v2", "icc", v2, walkICC(v2)}, {"icc-v4", "icc", v4, walkICC(v4)}}
+	// 20,000 tags all pointing at one 2 MiB block (overlapping tags are legal): memory must stay
+	// linear in the ~2.3 MB input, not tags x size
+	var mt []gen.ICCTag
+	mt = append(mt, gen.ICCTag{Sig: "desc", Block: 0})
+	for i := 0; i < 20000; i++ {
+		mt = append(mt, gen.ICCTag{Sig: fmt.Sprintf("%c%c%c%c", 'A'+i%26, 'a'+(i/26)%26, 'a'+(i/676)%26, '0'+(i/17576)%10), Block: 1})
+	}
+	many := gen.BuildICC(nil, mt, []gen.ICCBlock{{Data: gen.TextDesc("many shared tags")}, {Data: gen.Payload(2<<20, 4, false)}}, nil, nil)
+	return []hseed{{"icc-v2", "icc", v2, walkICC(v2)}, {"icc-v4", "icc", v4, walkICC(v4)},
+		{"icc-many-shared-tags", "icc", many, map[string][]fpos{"profile_size": {{0, 4, false}}}}}
 }
 
 func containerSeeds(profile []byte) []hseed {
